@@ -115,6 +115,58 @@ def cases(draw):
     return g
 
 
+def service_custom(ctx, seed, tier, shard, nshards, n):
+    """One fresh child interpreter and ONE long-lived model per case, 9 000 (quick) / 70 000 (thorough) valid calls with ever new line-ups
+    through it (vf/servicechild.py, shared with C14): nothing may raise, every number finite - however long the model has been in use."""
+    from hypothesis import HealthCheck, given, settings
+    from hypothesis import seed as hseed
+
+    from vf.props.c14 import SERVICE_CHECKPOINTS, run_service
+
+    specs = []
+    K = 9000 if tier == "quick" else 70000
+
+    @hseed(seed)
+    @settings(max_examples=n + 1, database=None, deadline=None, suppress_health_check=list(HealthCheck))
+    @given(st.data())
+    def collect(data):
+        cfg = data.draw(gen.configs(gammas=GAMMA_NAMES))
+        d = [cfg["mu"], cfg["sigma"]]
+        rec = [{"op": "rate", "teams": [[list(d)], [list(d)]], "call": {"ranks": [0, 0]}}]
+        specs.append({"cfg": cfg, "recurring": rec, "prng": data.draw(st.integers(0, 2 ** 32 - 1)), "K": K, "checkpoints": [c for c in SERVICE_CHECKPOINTS if c <= K]})
+
+    collect()
+    specs = specs[:n] if shard == 0 else specs[1:n + 1]
+    for k, spec in enumerate(specs):
+        ctx.begin(spec)
+        check_service(spec, ctx, f"{shard}-{k}")
+        ctx.label("kind:" + spec["cfg"]["kind"], "gamma:" + spec["cfg"]["gamma"])
+        ctx.end()
+
+
+def check_service(spec, ctx, tag="replay"):
+    from vf.props.c14 import run_service
+
+    try:
+        out = run_service(spec, "c08-" + tag, judge=False)
+    except Violation as v:
+        v.case = spec
+        raise
+    ctx.called(out["fillers"])
+    if out.get("first_raised"):
+        f = out["first_raised"]
+        v = Violation("service:raised:" + f["error"].split("(")[0], f"{spec['cfg']['kind']} (gamma {spec['cfg']['gamma']}): call number {f['after']} through one long-lived model, "
+                                                                     f"{f['job']['op']}({f['job'].get('call', {})}) on {f['job']['teams']}, raised {f['error']}")
+        v.case = spec
+        raise v
+    if out.get("first_nonfinite"):
+        f = out["first_nonfinite"]
+        v = Violation("service:nonfinite", f"{spec['cfg']['kind']}: call number {f['after']} through one long-lived model returned {f['result']}")
+        v.case = spec
+        raise v
+    ctx.nontrivial_if(out["fillers"] >= 4200)
+
+
 def fuzz_custom(ctx, seed, tier, shard, nshards, n):
     """atheris / libFuzzer campaign: even shards start from the empty corpus, odd shards from the golden-shaped seed games."""
     from vf.fuzz.c08_target import seed_corpus
@@ -179,6 +231,10 @@ PROPERTY = Property(
                     "corner / settled / far-apart ratings, teams of up to 8); rate() results fed back game after game (the returned list itself rated "
                     "again, per-call options alternating) with the three predictions interleaved on the same objects; players leaving the numeric "
                     "domain are retired; oracle: nothing raised, every number finite; non-trivial = >= 8 games with some player in >= 4"),
+        Clause(name="long-running-service", kind="custom", custom=service_custom, check=check_service, quick=32, thorough=128, shards_quick=16, shards_thorough=16,
+               rule="one fresh child interpreter and ONE long-lived model per case (any gamma callback): 9 000 (quick) / 70 000 (thorough) valid rate / predict "
+                    "calls with ever new line-ups, scorelines and options expanded from a Hypothesis-drawn PRNG seed; oracle: nothing raised, every number "
+                    "finite, however long the model has been in use; non-trivial = at least 4 200 calls ran"),
     ],
     rule="generated games over the widest valid domain; oracle: no exception of any kind, every returned number finite; distinct by SHA-1 of the case",
     assumptions=["sigma = 0 is only generated together with an effective tau >= 1e-6 beta (a tau whose square underflows is not 'tau > 0' numerically)"],
